@@ -12,7 +12,7 @@ line/column pair.
 Family: every value kind, nesting past 128 levels, every escape form incl. surrogate pairs, every
 number shape, all four white-space bytes in every gap, duplicate keys, empty containers, strings
 holding structural characters, documents crossing the 64-bit word / 512-bit rank block / 32-byte
-SIMD chunk boundaries (thorough: the 2048- and 65536-bit BP blocks).  A family, not all documents."""
+SIMD chunk boundaries (thorough: the 2048-bit BP blocks).  A family, not all documents."""
 import json
 
 from .harness import RuleResult
@@ -133,8 +133,10 @@ def documents(tier):
     if tier == "thorough":
         docs += [
             "[" + ",".join('{"id":%d,"n":[%d,%d],"s":"%s"}' % (i, i, i + 1, "z" * (i % 9)) for i in range(600)) + "]",
-            "[[" + ",".join(["1"] * 33300) + "],[[" + ",".join(["1"] * 40000) + "]]]",
-            '{"small":[' + ",".join(["1"] * 33000) + '],"big":{"items":[' + ",".join(["[1]"] * 20000) + "]}}",
+            # arrays whose parentheses cross the 2048-bit BP blocks (the 65536-bit level is BPTAB's L2-scale family:
+            # walking every node of a 70000-element document does not finish in the evaluator)
+            "[[" + ",".join(["1"] * 1100) + "],[[" + ",".join(["1"] * 1300) + "]]]",
+            '{"small":[' + ",".join(["1"] * 1100) + '],"big":{"items":[' + ",".join(["[1]"] * 700) + "]}}",
         ]
     for d in docs:
         json.loads(d)  # self-check: the family is valid JSON by construction
